@@ -342,6 +342,9 @@ _BINOPS: dict[type, t.Callable[[t.Any, t.Any], t.Any]] = {
     ast.FloorDiv: lambda a, b: a // b, ast.Mod: lambda a, b: a % b if not isinstance(a, str) else UNK,
     ast.BitOr: lambda a, b: a | b if isinstance(a, int) and isinstance(b, int) else UNK, ast.BitAnd: lambda a, b: a & b if isinstance(a, int) and isinstance(b, int) else UNK,
     ast.BitXor: lambda a, b: a ^ b if isinstance(a, int) and isinstance(b, int) else UNK,
+    ast.Pow: lambda a, b: a ** b if isinstance(a, int) and isinstance(b, int) and abs(a) <= 64 and 0 <= b <= 64 else UNK,
+    ast.LShift: lambda a, b: a << b if isinstance(a, int) and isinstance(b, int) and 0 <= b <= 64 else UNK,
+    ast.RShift: lambda a, b: a >> b if isinstance(a, int) and isinstance(b, int) and 0 <= b <= 64 else UNK,
 }
 
 
